@@ -70,6 +70,9 @@ func c15Files(c c15Case) map[string]string {
 			for _, j := range imps {
 				if j != i {
 					fmt.Fprintf(&sb, "    （法%d）\n", j)
+					// the importer also uses the imported module's TYPE (a selective import
+					// elsewhere must not take it away from this importer)
+					fmt.Fprintf(&sb, "    （显示：“型”、（新建型%d）之P）\n", j)
 				}
 			}
 			fmt.Fprintf(&sb, "    输出%d\n", i)
@@ -145,6 +148,7 @@ func c15Oracle(c c15Case) c15Expect {
 		tr = append(tr, str("法")+" "+num(j))
 		for _, k := range c15Edges(c, j) {
 			call(k)
+			tr = append(tr, str("型")+" "+num(k))
 		}
 	}
 	imps := c15Edges(c, 0)
